@@ -429,6 +429,8 @@ func (t *bodyTr) classReg(o types.Object) int {
 	t.regOf[root] = r
 	t.objRegs[r] = true
 	t.classRegs[r] = true
+	// allocated ONCE, on entry: the register of a class is never reset afterwards, only lowered
+	t.entryMakes = append(t.entryMakes, r)
 	return r
 }
 
@@ -513,7 +515,11 @@ func (t *bodyTr) store(x, v int, at ast.Node) {
 	if x == v || x < 0 || v < 0 {
 		return
 	}
-	t.emit(&node{op: "store", r: x, v: v, pos: -1, why: "ret", line: t.line(at)})
+	op := "store"
+	if t.objRegs[v] {
+		op = "storeobj" // an object goes into x: its own register is dead afterwards
+	}
+	t.emit(&node{op: op, r: x, v: v, pos: -1, why: "ret", line: t.line(at)})
 }
 
 // evalObj: the object register an expression of object-like type denotes
